@@ -73,6 +73,7 @@ type Gen struct {
 	loopInTry  bool
 	thrower    string // name of a helper function that may throw ("" = none)
 	closureN   int
+	extraFuncs []*Func
 	hasTrigger bool
 	budget     int // remaining statement budget
 	// Cover collects construct names used in the program.
@@ -225,7 +226,7 @@ func (g *Gen) literal(t *Type) Expr {
 // pure reports whether an expression has no side effects (calls are conservatively impure).
 func pure(e Expr) bool {
 	switch e := e.(type) {
-	case IntLit, FloatLit, BoolLit, StrLit, NoneLit, Var:
+	case IntLit, FloatLit, BoolLit, StrLit, NoneLit, NullLit, Var:
 		return true
 	case Grouped:
 		return pure(e.X)
@@ -830,6 +831,8 @@ func (g *Gen) stmt(d int) []Stmt {
 		g.cover("match-stmt")
 		m := g.matchExpr(Int, d).(Match)
 		return []Stmt{Let{Name: g.declFresh(Int), V: m}}
+	case r < 19 && g.F.NullLiteral && g.R.Chance(1, 4):
+		return g.nullStmts(d)
 	case r < 19 && g.F.Lists && g.R.Chance(1, 3):
 		if st := g.nestedListStmts(d); st != nil {
 			return st
@@ -849,6 +852,33 @@ func (g *Gen) stmt(d int) []Stmt {
 		}
 	}
 	return []Stmt{g.letStmt(d)}
+}
+
+// nullStmts: expressions of type null in statement and initialiser position (each must leave the
+// operand stack as it found it, however often it runs).
+func (g *Gen) nullStmts(d int) []Stmt {
+	g.cover("null-value")
+	switch g.R.Intn(6) {
+	case 0:
+		return []Stmt{ExprStmt{NullLit{}}}
+	case 1:
+		name := g.fresh()
+		g.declare(name, Null)
+		return []Stmt{Let{Name: name, V: NullLit{}}, ExprStmt{Var{name, Null}}}
+	case 2:
+		return []Stmt{ExprStmt{&Block{Stmts: []Stmt{g.trace()}, Tail: NullLit{}}}}
+	case 3:
+		return []Stmt{ExprStmt{If{Cond: g.expr(Bool, d), Then: &Block{Tail: NullLit{}}, Else: &Block{Stmts: []Stmt{g.trace()}, Tail: NullLit{}}}}}
+	case 4:
+		if vs := g.varsOf(ListOf(Int)); len(vs) > 0 && g.F.Lists {
+			name := g.fresh()
+			g.declare(name, Null)
+			return []Stmt{Let{Name: name, V: MCall{Recv: Var{fw.Pick(g.R, vs).name, ListOf(Int)}, Name: "push", Args: []Expr{g.pureExpr(Int, d)}, Ret: Null}}}
+		}
+	}
+	name := g.fresh()
+	g.declare(name, Null)
+	return []Stmt{Let{Name: name, V: If{Cond: g.expr(Bool, d), Then: &Block{Stmts: []Stmt{g.trace()}}}}}
 }
 
 // nestedListStmts: a list literal built from existing list variables (aliases), one alias mutated
@@ -942,7 +972,18 @@ func (g *Gen) closureStmts(d int) []Stmt {
 	arg := g.pureExpr(pt, d-1)
 	res := g.fresh()
 	g.declare(res, rt)
-	return []Stmt{Let{Name: name, V: lit}, Let{Name: res, V: Call{Fn: name, Args: []Expr{arg}, Ret: rt}}}
+	call := Call{Fn: name, Args: []Expr{arg}, Ret: rt}
+	if g.R.Bool() {
+		// the closure is called by another function with one of that function's locals as argument
+		g.cover("closure-passed")
+		ap := fmt.Sprintf("ap%s", letters(g.closureN))
+		ft := lit.T()
+		g.extraFuncs = append(g.extraFuncs, &Func{Name: ap, Params: []Param{{Name: "f", T: ft}, {Name: "z", T: pt}}, Ret: rt, Body: &Block{
+			Stmts: []Stmt{Let{Name: "loc", V: Var{"z", pt}}},
+			Tail:  Call{Fn: "f", Args: []Expr{Var{"loc", pt}}, Ret: rt}}})
+		call = Call{Fn: ap, Args: []Expr{Var{name, ft}, arg}, Ret: rt}
+	}
+	return []Stmt{Let{Name: name, V: lit}, Let{Name: res, V: call}}
 }
 
 func (g *Gen) declFresh(t *Type) string {
@@ -1052,6 +1093,7 @@ func (g *Gen) tryStmt(d int) []Stmt {
 // Program generates a whole single-module program.
 func (g *Gen) Program(size int) *Program {
 	g.Cover = map[string]bool{}
+	g.extraFuncs = nil
 	mod := &Module{Name: "main"}
 	g.scopes = [][]varInfo{nil}
 	g.budget = size
@@ -1115,6 +1157,7 @@ func (g *Gen) Program(size int) *Program {
 		main.Body.Stmts = append(main.Body.Stmts, ExprStmt{Builtin{"println", []Expr{StrLit{"unreachable"}}}})
 	}
 	g.popScope()
+	mod.Funcs = append(mod.Funcs, g.extraFuncs...)
 	mod.Funcs = append(mod.Funcs, main)
 	return &Program{Modules: []*Module{mod}, Entry: "main"}
 }
